@@ -43,8 +43,9 @@ def eph_side(maxseq=2, **kw):
                             'W': dict(srcs=[src('S', eph=2)])}, maxseq=maxseq, **kw)
 
 
-def balance2(maxseq=3, **kw):
-    return Topo('Balance2', {'S': dict(nout=2, outbal=True, beh=beh('origin', tseq=[['main']])),
+def balance2(maxseq=3, slow_origin=False, **kw):
+    return Topo('Balance2' + ('SlowS' if slow_origin else ''),
+                {'S': dict(nout=2, outbal=True, beh=beh('origin', tseq=[['main']], slow=slow_origin)),
                              'W1': dict(srcs=[src('S', out=1)], nout=1),
                              'W2': dict(srcs=[src('S', out=2)], nout=1),
                              'J': dict(srcs=[src('W1'), src('W2')], srcbal=True)}, maxseq=maxseq, **kw)
@@ -283,3 +284,27 @@ def balance2_relay(maxseq=5, skip=(1, 3), **kw):
 
 
 ALL.update(remap_main=remap_main, two_addr=two_addr, balance2_relay=balance2_relay)
+
+
+def explicit_multi(maxseq=5, **kw):
+    """an explicit two-topic subscription to a source whose topic set varies per id (both, both, neither, both, one, both),
+    behind a relay that skips an id: ids can start with their topics message, topics can be absent and come back"""
+    return Topo('ExplicitMulti', {
+        'S': dict(nout=1, beh=beh('origin', tseq=[['main', 'b'], ['main', 'b'], ['c'], ['main', 'b'], ['main'], ['main', 'b']])),
+        'R': dict(srcs=[src('S')], nout=1, beh=beh('relay', skip=(1,))),
+        'K': dict(srcs=[src('R', topics=[('main', 'main'), ('b', 'b')])]),
+    }, maxseq=maxseq, **kw)
+
+
+ALL.update(explicit_multi=explicit_multi)
+
+
+def chain3_empty(maxseq=4, **kw):
+    """the origin's process() returns an empty dict for every second frame: it must arrive downstream as an empty set"""
+    t = chain3(maxseq=maxseq, **kw)
+    t.filters['S']['beh']['tseq'] = [['main', 'b'], [], ['main']]
+    t.name = 'Chain3Empty'
+    return t
+
+
+ALL.update(chain3_empty=chain3_empty)
